@@ -119,7 +119,7 @@ func NewConnection(connection net.Conn, context Context) *Connection {
 }
 
 // EncryptedWrite encrypts and writes bytes to the connection.
-// The method returns the number of written bytes and an error when writing failed.
+// The method returns the number of bytes of b which were written and an error when writing failed.
 func (con *Connection) EncryptedWrite(b []byte) (int, error) {
 	encrypter := con.getEncrypter()
 	if encrypter == nil {
@@ -144,9 +144,13 @@ func (con *Connection) encryptedWrite(encrypter crypto.Encrypter, b []byte) (int
 	}
 
 	encryptedBytes, err := ioutil.ReadAll(encrypted)
-	n, err := con.connection.Write(encryptedBytes)
+	if _, err := con.connection.Write(encryptedBytes); err != nil {
+		return 0, err
+	}
 
-	return n, err
+	// The number of encrypted bytes is larger than len(b); writers on top
+	// of the connection (bufio, chunked writer) rely on io.Writer semantics.
+	return len(b), nil
 }
 
 // DecryptedRead reads and decrypts bytes from the connection.
